@@ -31,13 +31,13 @@ SPEC = {
     "exhaustive_note": "all labelled simple graphs on n<=4 vertices x 3^n colourings from {C, 13C, C radical} (quick); n=5 sampled in thorough",
     "monitors_required": ["c01_shadow_compare", "c01_trace_compare", "c01_exhaustive_class_compare"],
     "required_obs": {"quick": ["cov_multi_component", "cov_isotope_and_radical_on_one_atom", "cov_symmetric_partial_orbit",
-                               "cov_text_route_variant", "cov_nontrivial_relabelling", "cov_corpus"]},
+                               "cov_text_route_variant", "cov_v2000_text_route_variant", "cov_nontrivial_relabelling", "cov_corpus"]},
     "watchdog_s": {"quick": 900, "thorough": 3600},
 }
 
 PLAN = {
-    "quick": {"small_n": 4, "random": {"M2": 1400, "M3": 900, "M4": 300, "M5": 300, "M7s": 200}, "variants": 2, "k": 2, "corpus": True, "cfi": 0},
-    "thorough": {"small_n": 5, "small_sample": 0.12, "random": {"M2": 12000, "M3": 8000, "M4": 3000, "M5": 3000, "M7s": 1500},
+    "quick": {"small_n": 4, "random": {"M2": 1400, "M3": 900, "M4": 300, "M5": 300, "M7s": 200, "M10hiso": 600}, "variants": 2, "k": 2, "corpus": True, "cfi": 0},
+    "thorough": {"small_n": 5, "small_sample": 0.12, "random": {"M2": 12000, "M3": 8000, "M4": 3000, "M5": 3000, "M7s": 1500, "M10hiso": 6000},
                  "variants": 4, "k": 4, "corpus": True, "cfi": 6},
 }
 
@@ -103,6 +103,15 @@ def _run_case(ctx, case):
                 ctx.evaluations += 1
                 if perm != sorted(perm):
                     nontrivial = True
+            # the same molecule listed as a V2000 connection table (fixed columns; labels in M  CHG/RAD/ISO lines of 1..8 entries)
+            m3, perm = G.relabel(mol, rng)
+            if ctab.v2000_representable(m3):
+                st = ctab.V2Style(encoding=rng.choice(["lines", "lines", "codes", "stale"]), per_line=rng.randint(1, 8), dt_symbols=rng.random() < 0.5,
+                                  shuffle_entries=rng.random() < 0.5, interleave=rng.random() < 0.5)
+                g3 = mr.graph_from_molfile_text(ctab.render_v2000(m3, st, rng))
+                strings.append(("v2000-text", pipeline(g3)))
+                ctx.count("cov_v2000_text_route_variant")
+                ctx.evaluations += 1
     finally:
         monitors.S.depth -= 1
     ctx.mon("c01_trace_compare", len(strings) - 1)
